@@ -15,7 +15,7 @@ META = dict(
               "modelled beside srv_step; monitor keeping per connection the bits it last wrote; tie: generated server<> "
               "instantiations (1/4/5/9 CCCDs, with and without priorities) with client_characteristic_configuration_update_"
               "callback, 3 connections, random CCCD write / read histories, callback count compared",
-    level_note="proved: lens laws for any number of CCCDs, store well formed in every reachable state, CCCD write exact and local, read exact, other connections untouched, position = notification index (permutation lemma), callback iff stored bits change. TRACE LEVEL (partial): C09_monitor_accepts_model_partial - the monitor (all clauses) accepts every fault-free model trace (any operations, any length, 3 connections) for wf configurations without include_service<>, write queue and encryption requirements (env09). NOT proved: the same for the remaining configurations (C09_monitor_accepts_model_full, Definition); monitored and tied. See docs/C09.md")
+    level_note="proved: lens laws for any number of CCCDs, store well formed in every reachable state, CCCD write exact and local, read exact, other connections untouched, position = notification index (permutation lemma), callback iff stored bits change. TRACE LEVEL (partial): C09_monitor_accepts_model_partial - the monitor (all clauses) accepts every fault-free model trace (any operations, any length, 3 connections) for wf configurations without include_service<>, write queue and encryption requirements (env09). Also proved without a no-FAULT hypothesis for l2cap_input (C09_monitor_accepts_model_partial_no_input_fault, via C01_no_fault_reachable). NOT proved: the same for the remaining configurations (C09_monitor_accepts_model_full, Definition); monitored and tied. See docs/C09.md")
 
 CB_OPTION = "    no_gap_service_for_gatt_servers,\n    client_characteristic_configuration_update_callback< verif::cccd_cb_t, verif::cccd_cb >"
 
